@@ -4,8 +4,10 @@ let () =
   | [| _; "c03" |] -> C03.run ()
   | [| _; "c15" |] -> C15.run ()
   | [| _; "ble" |] -> Ble.run ()
+  | [| _; "blehandler"; f; o |] -> Blehandler.run f o
   | [| _; "script"; f |] -> Script.run f
   | [| _; "judge"; f; o |] -> Judge.run f o
   | [| _; "api"; f; o |] -> Api.run f o
+  | [| _; "apimodel"; f |] -> Api.run_model_only f
   | [| _; "reglist"; f; o |] -> Reglist.run f o
   | _ -> prerr_endline "usage: gvmodel <subcommand>"; exit 2
